@@ -899,6 +899,27 @@ def run_scenario(ctx, w):
     b = None
     try:
         b = sk.build(cfg, base_seed=int(w["seed"]))
+        app = b.app
+        orig_step = app.stepForward
+
+        def stepped():
+            # agent-level hand-over: after every step each estimate agent holds a filter that is at the current time and has no
+            # pending close request (a closed adaptive filter was replaced by its surviving model in the step in which it closed)
+            from resonaate.estimation.sequential_filter import FilterFlag
+
+            orig_step()
+            now = float(app.clock.time)
+            for aid, ag in app.estimate_agents.items():
+                flt = ag.nominal_filter
+                ctx.check(abs(float(flt.time) - now) < 1e-6, "scenario-agent-filter-not-at-current-time",
+                          f"MMAE scenario ({w['name']}): after the step ending at t={now:.0f}s estimate agent {aid} holds a {type(flt).__name__} whose time is {float(flt.time):.0f}s", dict(w), mon="handover")
+                # (the surviving model inherits the flag word and clears it at its next predict: only an adaptive filter that is
+                # still installed although it has closed is a missed hand-over)
+                still_adaptive = hasattr(flt, "converged_filter")
+                ctx.check(not (still_adaptive and FilterFlag.ADAPTIVE_ESTIMATION_CLOSE in flt.flags), "scenario-closed-adaptive-filter-not-handed-back",
+                          f"MMAE scenario ({w['name']}): after the step ending at t={now:.0f}s estimate agent {aid} still holds the closed {type(flt).__name__} instead of its surviving model", dict(w), mon="handover")
+
+        app.stepForward = stepped
         try:
             sk.run_like_cli(b.app, timedelta(hours=float(w["hours"])))
         except Exception as e:  # noqa: BLE001
